@@ -144,26 +144,64 @@ theorem reads_meet_spec_uniform (inp : Input) (fuel : Nat) (h : Uniform inp) :
   ⟨reads_meet_spec_partial inp fuel (uniform_never_foreign inp fuel h),
    cache_preserves_spec inp _ (reads_meet_spec_partial inp fuel (uniform_never_foreign inp fuel h))⟩
 
+/-! ### histories: several loads on one `Loader`
+
+`history steps fuel` runs the loads one after the other on the same loader: `visitedDocuments` and the components
+already resolved in those documents survive, the in-progress set is reset, `rootLocation` / `rootDir` are assigned but
+never read (table LoaderState).  Each load is judged against ITS OWN root: with the switch off it reads nothing but
+that root, whatever the loader loaded before (a `LoadFromData` after a located load reads nothing at all); with the
+switch on a document loaded by an earlier load of the same loader counts as already loaded (`Input.known`).
+`GoodHist`: the loads share one file universe and a located root's file sits in it at its location. -/
+
+/-- first sentence, every load of every history, full strength -/
+theorem history_switch_off_reads_root_only (store : List (Url × File)) (steps : List Input) (fuel : Nat)
+    (hg : GoodHist store steps) :
+    ∀ e ∈ history steps fuel, e.inp.allowed = false → ∀ u ∈ e.st.log, some u = e.inp.root :=
+  fun e he hoff => (runH_inv store fuel steps [] St.init hg (CarryOK.init store) e he).off hoff
+
+/-- second sentence, every load of every history, outside the exclusion -/
+theorem history_switch_on_reads_are_resolutions_partial (store : List (Url × File)) (steps : List Input) (fuel : Nat)
+    (hg : GoodHist store steps) :
+    ∀ e ∈ history steps fuel, e.st.foreign = false → AllJust e.inp e.st.log :=
+  fun e he hf => (runH_inv store fuel steps [] St.init hg (CarryOK.init store) e he).just hf
+
+/-- both sentences for every load of a history -/
+theorem history_reads_meet_spec_partial (store : List (Url × File)) (steps : List Input) (fuel : Nat)
+    (hg : GoodHist store steps) :
+    ∀ e ∈ history steps fuel, e.st.foreign = false → Spec e.inp e.st.log := by
+  intro e he hf
+  have hI := runH_inv store fuel steps [] St.init hg (CarryOK.init store) e he
+  unfold Spec
+  split
+  · exact hI.just hf
+  · next ha => exact hI.off (by simpa using ha)
+
+/-- a fresh loader is the one-load history -/
+theorem history_single (inp : Input) (fuel : Nat) :
+    (history [inp] fuel).map (fun e => (e.st.log, e.ok)) = [((load { inp with known := [] } fuel).1.log, (load { inp with known := [] } fuel).2)] := rfl
+
 /-! ### the executable spec is the spec -/
 
 theorem justifiedB_iff (inp : Input) (pre : List Url) (u : Url) :
     justifiedB inp pre u = true ↔ Justified inp pre u := by
   unfold justifiedB Justified Loaded
   simp only [Bool.or_eq_true, decide_eq_true_eq, List.any_eq_true, Bool.and_eq_true, List.mem_cons,
-    List.mem_map]
+    List.mem_append, List.mem_map]
   constructor
   · rintro (h | ⟨d, hd, r, hr, hf, hu⟩)
     · exact Or.inl h
     · refine Or.inr ⟨d, ?_, r, hr, hf, hu⟩
-      rcases hd with hd | ⟨x, hx, hd⟩
+      rcases hd with hd | ⟨x, hx, hd⟩ | ⟨x, hx, hd⟩
       · exact Or.inl hd
-      · exact Or.inr ⟨x, hx, hd.symm⟩
+      · exact Or.inr (Or.inl ⟨x, hx, hd.symm⟩)
+      · exact Or.inr (Or.inr ⟨x, hx, hd.symm⟩)
   · rintro (h | ⟨d, hd, r, hr, hf, hu⟩)
     · exact Or.inl h
     · refine Or.inr ⟨d, ?_, r, hr, hf, hu⟩
-      rcases hd with hd | ⟨x, hx, hd⟩
+      rcases hd with hd | ⟨x, hx, hd⟩ | ⟨x, hx, hd⟩
       · exact Or.inl hd
-      · exact Or.inr ⟨x, hx, hd.symm⟩
+      · exact Or.inr (Or.inl ⟨x, hx, hd.symm⟩)
+      · exact Or.inr (Or.inr ⟨x, hx, hd.symm⟩)
 
 theorem allJustFrom_iff (inp : Input) : ∀ (log pre : List Url),
     allJustFrom inp pre log = true ↔ ∀ s u t, log = s ++ u :: t → Justified inp (pre ++ s) u
@@ -383,6 +421,18 @@ def x5 : Input :=
 /-- non-vacuity of the uniform theorems: a three-file universe in one directory is uniform (three reads); the
     witnesses of F-C11-1 are not uniform -/
 example : Uniform x5 ∧ (load x5 16).1.log.length = 3 ∧ ¬ Uniform x0 ∧ ¬ Uniform x6 := by decide
+
+/-- a history: `LoadFromFile` of x5's root, then `LoadFromData` of a document with a dangling '#'-reference, switch
+    off in both: the second load reads NOTHING (the raw re-read has no location to read; it must not fall back to the
+    first load's file), then the first file again: its read happens, the cached document is not resolved again -/
+def h1 : List Input :=
+  [ { x5 with allowed := false, store := (fileUrl ["r", "a", "root.json"], x5.rootFile) :: x5.store },
+    { x5 with allowed := false, entry := .data, store := (fileUrl ["r", "a", "root.json"], x5.rootFile) :: x5.store
+              rootFile := { x5.rootFile with tops := [ .mk 1 .schema (some (hashRef "/components/schemas/Nope")) [] ] } },
+    { x5 with allowed := true, store := (fileUrl ["r", "a", "root.json"], x5.rootFile) :: x5.store } ]
+
+example : (history h1 16).map (fun e => (e.st.log, e.ok)) =
+    [ ([fileUrl ["r", "a", "root.json"]], false), ([], false), ([fileUrl ["r", "a", "root.json"]], true) ] := by decide
 
 /-- path algebra: "../b/p.json" against /r/a/root.json -/
 example : resolvePath (some (fileUrl ["r", "a", "root.json"])) ⟨"", "", false, ["..", "b", "p.json"]⟩
